@@ -24,6 +24,8 @@ SCRATCH = os.environ.get("VERIF_SCRATCH", "/var/tmp/oomd-verif")
 LEAN_DIR = os.path.join(VERIF, "lean")
 NCPU = os.cpu_count() or 4
 GUARD = "OOMD_VERIF"
+# evidence of a run against a scratch tree (VERIF_REPO, used to try mutations) never overwrites the evidence of /repo
+EVIDENCE_DIR = os.path.join(VERIF, "evidence") if os.path.realpath(REPO) == "/repo" else os.path.join(SCRATCH, "evidence-scratch")
 
 FORBIDDEN = re.compile(r"\b(sorry|admit|native_decide|bv_decide|implemented_by|unsafe)\b|^\s*axiom\s|maxHeartbeats\s+0")
 ALLOWED_AXIOMS = {"propext", "Quot.sound", "Classical.choice"}
@@ -768,8 +770,8 @@ def run_check(mod, tier, seed, replay=None):
     ev = {"property_id": prop, "tier": "thorough" if tier == "thorough" else "quick", "seed": seed, "level": "proof",
           "coverage": cov, "assumptions": assumptions, "wall_s": round(time.time() - ck.t0, 2),
           "violations": len(violations)}
-    ensure_dir(os.path.join(VERIF, "evidence"))
-    with open(os.path.join(VERIF, "evidence", prop + ".json"), "w") as f:
+    ensure_dir(EVIDENCE_DIR)
+    with open(os.path.join(EVIDENCE_DIR, prop + ".json"), "w") as f:
         json.dump(ev, f, indent=1)
 
     for cls, (k, n) in sorted(known_hits.items()):
